@@ -18,23 +18,23 @@ def run(ctx, repo):
         'immutable atoms are exempt from anchoring (R-ALIAS-KEY); container constructors are two-phase and lazy, so shared and '
         'self-referential containers can be rebuilt (R-TWO-PHASE, R-CONSTRUCT-CACHE).')
     ctx.trust('CPython ast; sa.tables registry folding; sa.charworld constant evaluator')
-    RR2.r_tag_vocab(ctx, repo, RR.SAFE_DUMPERS, RR.SAFE_LOADERS, 'R-TAG-VOCAB-SAFE', exact_types=RR2.SAFE_TYPES)
-    RR2.r_resolver_shared(ctx, repo)
-    RE.r_plain_implies_implicit(ctx, repo)
-    RE.r_escape_inverse(ctx, repo)
-    RE.r_tagchar_inclusion(ctx, repo)
-    RE.r_breakset_agreement(ctx, repo, ['emitter'], exceptions={('write_double_quoted', '\x85\u2028\u2029')})
-    RR2.r_event_brackets(ctx, repo)
-    RR2.r_alias_key(ctx, repo)
-    RO.r_two_phase(ctx, repo)
-    RO.r_construct_cache(ctx, repo)
-    RX.r_simple_key_fits(ctx, repo)
-    RX.r_block_hint_leading(ctx, repo)
-    RX.r_analyze_special(ctx, repo)
-    RX.r_timestamp_exact(ctx, repo)
-    RX.r_alias_key_fresh(ctx, repo)
-    RX.r_escape_introducer(ctx, repo)
-    RX.r_fold_leading_space(ctx, repo)
+    ctx.call(RR2.r_tag_vocab, repo, RR.SAFE_DUMPERS, RR.SAFE_LOADERS, 'R-TAG-VOCAB-SAFE', exact_types=RR2.SAFE_TYPES)
+    ctx.call(RR2.r_resolver_shared, repo)
+    ctx.call(RE.r_plain_implies_implicit, repo)
+    ctx.call(RE.r_escape_inverse, repo)
+    ctx.call(RE.r_tagchar_inclusion, repo)
+    ctx.call(RE.r_breakset_agreement, repo, ['emitter'], exceptions={('write_double_quoted', '\x85\u2028\u2029')})
+    ctx.call(RR2.r_event_brackets, repo)
+    ctx.call(RR2.r_alias_key, repo)
+    ctx.call(RO.r_two_phase, repo)
+    ctx.call(RO.r_construct_cache, repo)
+    ctx.call(RX.r_simple_key_fits, repo)
+    ctx.call(RX.r_block_hint_leading, repo)
+    ctx.call(RX.r_analyze_special, repo)
+    ctx.call(RX.r_timestamp_exact, repo)
+    ctx.call(RX.r_alias_key_fresh, repo)
+    ctx.call(RX.r_escape_introducer, repo)
+    ctx.call(RX.r_fold_leading_space, repo)
 
 
 if __name__ == '__main__':
